@@ -83,6 +83,7 @@ def sdl_view(spec):
     """What an SDL-built schema can carry: enum internal value = name, no python names."""
     s = json.loads(json.dumps(spec))
     for t in s["types"].values():
+        t.pop("null_on", None)   # SDL-built custom scalars are transparent
         if t["kind"] == "enum":
             for v in t["values"]:
                 v["value"] = v["name"]
